@@ -10,7 +10,7 @@ VARIABLES tid, l, verdict
 Act(e) == CASE e.a = "away" -> SetBreezeAway(e.v # 0) [] e.a = "mild" -> SetBreezeMild(e.v # 0) [] e.a = "less" -> SetBreezeless(e.v # 0)
             [] e.a = "ieco" -> SetIeco(e.v # 0) [] e.a = "beep" -> SetBeep(e.v # 0)
             [] e.a = "rate" -> SetRate(e.v) [] e.a = "lr" -> SetLR(e.v) [] e.a = "ud" -> SetUD(e.v)
-            [] e.a = "apply" -> Apply [] e.a = "refresh" -> Refresh [] e.a = "caps" -> GetCaps [] e.a = "selfclean" -> StartSelfClean
+            [] e.a = "apply" -> Apply [] e.a = "refresh" -> Refresh [] e.a = "caps" -> GetCaps [] e.a = "selfclean" -> StartSelfClean [] e.a = "cleandone" -> CleanDone
 
 (* bytes of a property value on the wire, from the raw register value of AcDevice!Enc (vendor layout: iECO = frame 0, number 1, switch, 10 zeros) *)
 RawBytes(id, raw) == IF id = PIECO THEN <<0, 1, raw>> \o Zeros(10) ELSE <<raw>>
